@@ -191,6 +191,10 @@ def plan(tier, seed):
         cases.append(dict(key=f"form/{name}", kind="form", name=name, seed=seed, tier=tier, cost=5))
     for model in ("line1-scalar-bilinear", "line2-scalar-bilinear", "line1-scalar-linear", "line2-vector2-linear", "line1-sym-bilinear") + (("quad1-scalar-bilinear",) if tier == "thorough" else ()):
         cases.append(dict(key=f"threads/{model}", kind="threads", model=model, seed=seed, tier=tier, cost=60))
+    # test and trial fields on DIFFERENT regions over the same cells (quadratic vs linear shape functions, same quadrature)
+    for order in ("quadratic-linear", "linear-quadratic"):
+        for dim in (1, 2):
+            cases.append(dict(key=f"form2/{order}/dim={dim}", kind="form2", order=order, dim=dim, seed=seed, tier=tier, cost=3))
     # field objects with a history: dual fields used in one container / geometry and then re-used in another one
     for fk in ("axi-mixed3", "ps-mixed3", "mixed3"):
         cases.append(dict(key=f"reuse/quad/{fk}", kind="reuse", fk=fk, seed=seed, tier=tier, cost=5))
@@ -572,6 +576,53 @@ def run_form(case):
     return c.result(dict(case=case["key"], shape=list(base.shape)))
 
 
+def run_form2(case):
+    """Form(v=field on one region, u=field on another region over the same cells): the expression API must take the test
+    basis from v and the trial basis from u.  Reference: explicit loops over cells, quadrature points and both sets of
+    shape functions; serial, threaded and sym-free variants; plus the mixed container [quadratic w, linear p] with a weak
+    form that uses the gradient of the trial function of the off-diagonal block."""
+    import felupe as fem
+    from felupe.math import ddot, dot, grad
+
+    c = Ctx(case["key"])
+    seed, dim = case["seed"], case["dim"]
+    m8 = zoo.make("quad8", "distorted", seed)
+    rQ = fem.RegionQuadraticQuad(m8)
+    mL = fem.Mesh(m8.points, m8.cells[:, :4], "quad")
+    rL = fem.RegionQuad(mL, quadrature=fem.GaussLegendre(order=2, dim=2))
+    if not np.allclose(rQ.dV, rL.dV, rtol=1e-12, atol=0):
+        c.bad("setup", "the two regions do not share the geometry", float(np.abs(rQ.dV - rL.dV).max()), 0)
+    fQ, fL = fem.Field(rQ, dim=dim), fem.Field(rL, dim=dim)
+    (rv, fv_), (ru, fu_) = ((rQ, fQ), (rL, fL)) if case["order"] == "quadratic-linear" else ((rL, fL), (rQ, fQ))
+    q, nc = rQ.dV.shape
+    coef = 1.0 + np.arange(q * nc, dtype=float).reshape(q, nc) / 7
+
+    def wf(v, u, **kw):
+        return coef * ddot(grad(v), grad(u)) + 0.5 * dot(v, u, mode=(1, 1))
+
+    n_v, n_u = rv.mesh.npoints, ru.mesh.npoints
+    ref = np.zeros((n_v * dim, n_u * dim))
+    hv = np.broadcast_to(rv.h, (rv.h.shape[0], q, nc))
+    hu = np.broadcast_to(ru.h, (ru.h.shape[0], q, nc))
+    for cc in range(nc):
+        for a in range(rv.mesh.cells.shape[1]):
+            for b in range(ru.mesh.cells.shape[1]):
+                val = ((coef[:, cc] * np.einsum("Jq,Jq->q", rv.dhdX[a, :, :, cc], ru.dhdX[b, :, :, cc]) + 0.5 * hv[a, :, cc] * hu[b, :, cc]) * rQ.dV[:, cc]).sum()
+                for i in range(dim):
+                    ref[dim * rv.mesh.cells[cc, a] + i, dim * ru.mesh.cells[cc, b] + i] += val
+    for kw in (dict(), dict(parallel=True)):
+        F = fem.Form(v=fem.FieldContainer([fv_]), u=fem.FieldContainer([fu_]))(lambda: [wf])
+        try:
+            got = F.assemble(**kw).toarray()
+        except Exception as ex:  # noqa
+            c.bad(f"assemble{kw}/exception", "Form with test and trial fields on different regions raised", repr(ex)[:160], "a matrix")
+            continue
+        c.trans += 1
+        c.states += 1
+        c.cmp(f"assemble{kw}", "Form(v, u) with test and trial fields on different regions vs the defining sum (test basis from v, trial basis from u)", got, ref, 1e-12)
+    return c.result(dict(case=case["key"], shape=list(ref.shape)))
+
+
 def run_reuse(case):
     """(p, J) dual field objects that were assembled in a container on geometry 1 are re-used, together with a new
     displacement field, in a container on geometry 2 (same topology, other position / shape); and the other way round
@@ -724,4 +775,4 @@ def run_threads(case):
 
 
 def run(case):
-    return {"linear": run_linear, "bilinear": run_bilinear, "parallel": run_parallel, "form": run_form, "threads": run_threads, "reuse": run_reuse}[case["kind"]](case)
+    return {"linear": run_linear, "bilinear": run_bilinear, "parallel": run_parallel, "form": run_form, "threads": run_threads, "reuse": run_reuse, "form2": run_form2}[case["kind"]](case)
